@@ -97,9 +97,11 @@ Definition imp_qualifier (r : registry) (kv : string * bool) : string :=
   if snd kv then match find_path r (fst kv) with Some i => qualifier i | None => "" end
   else "".
 
-(* resolveImportVarConflicts ranges over a Go map.  The renames commute unless a
-   qualifier q and q ++ "MoqParam" are both present; then the model refuses to pick
-   an order. *)
+(* resolveImportVarConflicts.  The renames do not commute when a qualifier q and q ++ "MoqParam"
+   are both present (or a qualifier occurs twice): until the repair of D16 the Go code ranged over
+   the map and the result depended on the iteration order; it now visits the imports in the order
+   of their sorted paths.  [rename_order_sensitive] is kept as the condition under which the old
+   code was order dependent (P_C14). *)
 Definition rename_order_sensitive (quals : list string) : bool :=
   existsb (fun q => negb (String.eqb q "") && str_mem (q ++ "MoqParam") quals) quals
   || negb (nodupb (filter (fun q => negb (String.eqb q "")) quals)).
@@ -112,16 +114,16 @@ Fixpoint rename_for_imports (vs : list var) (quals : list string) : list var :=
       (if has_var vs q then rename_first vs q (q ++ "MoqParam") else vs) r
   end.
 
+(* the qualifiers of a variable's imports, in the order of the sorted import paths *)
+Definition var_quals (r1 : registry) (imps : list (string * bool)) : list string :=
+  map (imp_qualifier r1) (sort_by (fun a b => String.ltb (fst a) (fst b)) imps).
+
 (* AddVar(vr, suffix) for a go/types variable with name [name] and type [t] *)
 Definition add_var (cfg : rcfg) (r : registry) (sc : scope)
            (name : string) (t : ty) (suffix : string)
   : outcome (registry * scope * nat) :=
   bind (populate cfg r (refs t) []) (fun '(r1, imps) =>
-  let quals := map (imp_qualifier r1) imps in
-  if rename_order_sensitive quals && existsb (has_var (sc_vars sc)) quals
-  then OrderDependent "resolveImportVarConflicts"
-  else
-  let vs1 := rename_for_imports (sc_vars sc) quals in
+  let vs1 := rename_for_imports (sc_vars sc) (var_quals r1 imps) in
   let n0 := var_name name t suffix in
   let n1 := match search_import r1 n0 with Some _ => n0 ++ "MoqParam" | None => n0 end in
   let sc1 := mkScope vs1 (sc_conflicted sc) in
